@@ -5,6 +5,7 @@ import subprocess
 
 from .. import common as C
 from . import client_common as CC
+from . import live_common as L
 
 
 def reqid_stage(ctx, stats):
@@ -31,11 +32,9 @@ def reqid_stage(ctx, stats):
         n += 1
         stats["reqid_" + kind] += 1
         want = None
-        if kind in ("result", "packed-result", "packed-result+tail", "result-large", "packed-result-large"):
-            off = 8 if kind.startswith("result") else None
-            if off is not None:
-                want = "%x" % int.from_bytes(bytes.fromhex(body[off:off + 16]), "little")
-        elif kind in ("other", "packed-other", "packed-notgzip", "packed-empty", "packed-longheader", "result-cut"):
+        if len(f) > 5 and f[5] != "-":
+            want = f[5]
+        elif kind in ("other", "packed-other", "packed-notgzip", "packed-empty", "packed-longheader", "result-cut", "packed-cutresult"):
             want = "0"
         key = "reqid:%s:%s" % (kind, C.digest([body]) if hasattr(C, "digest") else body[:40])
         rep = {"kind": "reqid", "body_kind": kind, "body_hex": body if len(body) < 4000 else body[:4000] + "...", "case": cid,
@@ -58,15 +57,34 @@ def reqid_stage(ctx, stats):
 def run(ctx):
     pr, stats, validated, dis, distinct, samples, exh = CC.run_prop(ctx, "C09", n_quick=400, n_thorough=4000)
     reqid_stage(ctx, stats)
+    # second batch (cmd/c11, Client/Live.v): requests written more than once - rejected by bad_server_salt and re-sent under a
+    # new msg id - and requests answered on a later connection; the answer to the LATEST id must reach the caller, typed
+    n = 100 if ctx.tier == "quick" else 2000
+    lstats, lval, ldis, ldistinct, lsamples, lexh = L.run_batches(ctx, "C09", "c11", n, [L.PINNED + "/pinned-c11.script"], ())
+    for k, v in lstats.items():
+        stats["live_" + k] += v
+    stats["schedules"] += lstats["schedules"]
+    stats["actions"] += lstats["actions"]
+    validated, dis, distinct, exh = validated + lval, dis + ldis, distinct | ldistinct, exh + lexh
     return CC.finish(ctx, "C09", pr, stats, validated, dis, distinct, samples, exh,
                      "Direct oracle for C09: every completed call returned kind:token of the answer the reference server addressed "
                      "(req_msg_id) to the frame that carried this call's token; a declared Vector<> arrives as the typed slice; the process "
                      "must not die while results are delivered. Hint lookup: reqMsgIDOf (hook VerifReqMsgIDOf) on bodies of every shape - "
                      "results plain / packed / packed with a tail / cut / with damaged or foreign streams / large, other constructors carrying "
                      "the id in the same place, random bytes; ids over the full 64-bit range - against TL/ReqId.v req_msg_id_of (C09_hint_key_*) "
-                     "and against the id the harness wrote.")
+                     "and against the id the harness wrote; packed results also from compressors that flush inside the first 16 bytes, "
+                     "write stored blocks or several gzip members (refserver.GzipStream: what the first read of an inflater hands out is "
+                     "shorter than the object). Hand-over before the caller listens (script op 'early rx'): the receive loop is released "
+                     "at its hand-over while the owner is still inside sendPacket; it must wait (no arrival within 40 ms), then the owner "
+                     "is released and both must go on as in the other order. Second batch (cmd/c11, extracted step2 of Client/Live.v): "
+                     "requests rejected by bad_server_salt and written again under a new msg id, connections closed and re-opened: every "
+                     "completed call returned the answer addressed to the LATEST id of its own request, vectors typed (keys live:...).")
 
 
 def replay(ctx, path):
-    r = CC.replay(ctx, "C09", path)
+    import json
+    if "profile" in json.load(open(path)):
+        r = L.replay(ctx, "C09", path)
+    else:
+        r = CC.replay(ctx, "C09", path)
     return run(ctx) if r is None else r
